@@ -17,7 +17,7 @@ save)
   [ -s $d/patch.diff ] || { echo "empty diff"; rm -rf $d; exit 1; }
   (cd $M && go build ./... ) || { echo "DOES NOT BUILD"; rm -rf $d; cd /; rm -rf $M; rsync -a --exclude .git /repo/ $M/; exit 1; }
   if ! $notest; then
-    (cd $M && go test -vet=off -count=1 -timeout 90s ./... 2>&1 | grep -v "^ok\|no test files" | head -20)
+    (cd $M && go test -vet=off -count=1 -timeout 90s ./... 2>&1 | grep -v "^ok\|no test files" | head -4 | cut -c1-220)
     (cd $M && go test -vet=off -count=1 -timeout 90s ./... >/dev/null 2>&1) && suite=green || suite=RED
   else suite=untested; fi
   out=$(/verif/bin/vcheck -rule $rule -repo $M 2>&1 | grep -E "^(violation|undecided)" | grep -F -- "$expect")
